@@ -17,6 +17,7 @@ import (
 	"runtime/debug"
 	"sort"
 	"strings"
+	"sync"
 
 	"io"
 
@@ -40,6 +41,8 @@ type Suite struct {
 	Gen  func(r *rand.Rand, n int, tier string) []string
 	Exec func(line string) Result
 	Rule string
+	// Parallel > 0: Exec spawns its own worker process per line and may run that many lines concurrently
+	Parallel int
 }
 
 var suites = map[string]*Suite{}
@@ -49,11 +52,14 @@ func register(s *Suite) { suites[s.Name] = s }
 func main() {
 	log.SetOutput(io.Discard)
 	log.SetLevel(log.PanicLevel)
-	if len(os.Args) < 3 {
+	if len(os.Args) < 2 || (len(os.Args) < 3 && os.Args[1] != "e2eworker" && os.Args[1] != "list") {
 		fmt.Fprintln(os.Stderr, "usage: corr gen|exec|list ...")
 		os.Exit(2)
 	}
 	switch os.Args[1] {
+	case "e2eworker":
+		e2eWorkerMain()
+		return
 	case "list":
 		names := []string{}
 		for k := range suites {
@@ -83,6 +89,7 @@ func main() {
 			os.Exit(2)
 		}
 		execSuite(s, os.Args[3], os.Args[4])
+		runExitHooks() // suite-registered cleanups (c19_path.go)
 	default:
 		os.Exit(2)
 	}
@@ -130,14 +137,43 @@ func execSuite(s *Suite, opsfile, outdir string) {
 	evals := 0
 	lineNo := 0
 	var samples []string
+	var lines []string
 	for sc.Scan() {
-		line := sc.Text()
-		lineNo++
+		lines = append(lines, sc.Text())
+	}
+	results := make([]Result, len(lines))
+	run := func(i int) {
+		if strings.TrimSpace(lines[i]) == "" {
+			results[i] = Result{Out: "bad-op"}
+			return
+		}
+		results[i] = safeExec(s, lines[i])
+	}
+	if s.Parallel > 1 {
+		sem := make(chan struct{}, s.Parallel)
+		var wg sync.WaitGroup
+		for i := range lines {
+			wg.Add(1)
+			sem <- struct{}{}
+			go func(i int) {
+				defer wg.Done()
+				defer func() { <-sem }()
+				run(i)
+			}(i)
+		}
+		wg.Wait()
+	} else {
+		for i := range lines {
+			run(i)
+		}
+	}
+	for i, line := range lines {
+		lineNo = i + 1
+		res := results[i]
 		if strings.TrimSpace(line) == "" {
 			fmt.Fprintln(w, "bad-op")
 			continue
 		}
-		res := safeExec(s, line)
 		evals++
 		fmt.Fprintln(w, strings.ReplaceAll(res.Out, "\n", "\\n"))
 		for _, t := range res.Tags {
